@@ -1,4 +1,5 @@
 import IcyVerif.Model.ColorOpt
+import IcyVerif.Model.ColorOptSixel
 import IcyVerif.Drv.Comp
 /-! Line protocol of the colour-optimiser model (C12).
 
@@ -6,6 +7,8 @@ import IcyVerif.Drv.Comp
               <nhb> {page ch upperIsFg lowerIsFg}* <nlayers> {layer}*`   (layer / cell syntax of `comp get`)
   → `<cells of optimize(buf).layers[0], row by row>|<fnv of render_to_rgba(buf)> <fnv of render_to_rgba(optimize(buf))>`
   (`panic` in place of a part whose computation panics)
+`coloropt sdoc <as doc> <nsixels> {layer px py w h a b len}*`
+  → `<cells>|<fnv of the full render_to_rgba(buf)> <… of buf without its sixels> <… of optimize(buf)> sixels=0`
 `coloropt fontsum ansi <slot> | sauce <index> | other <index>` → `w h n fnv(lens) fnv(ones) fnv(full)` of the
   regenerated summary of that built-in font. -/
 namespace IcyVerif.Drv.ColorOpt
@@ -46,7 +49,17 @@ def showRows (rows : List (List Cell)) : String :=
 def imageHash (blocks : List (List (List (List Px)))) (h0 : Nat) : String :=
   if hasPanic blocks then "panic" else toString (fnv (imageBytes blocks h0))
 
-def doc (xs : List Int) : Option String :=
+structure Parsed where
+  norm : Bool
+  isTerm : Bool
+  W : Nat
+  H : Nat
+  fonts : Nat → Option Font
+  pal : Nat → Rgb
+  hb : Cell → Nat × Nat
+  stack : List Layer
+
+def parseDoc (xs : List Int) : Option (Parsed × List Int) :=
   match xs with
   | norm :: t :: w :: h :: xs =>
     if w < 0 || h < 0 then none else
@@ -63,24 +76,60 @@ def doc (xs : List Int) : Option String :=
     | none => none
     | some (hbt, xs) =>
     match counted layer xs with
-    | some (stack, []) =>
-      let fonts := mkFonts sizes glyphs
-      let palf := mkPal pal
-      let hb := hbOf hbt
-      let W := w.toNat
-      let H := h.toNat
-      let isTerm := t != 0
-      match fonts 0 with
+    | some (stack, rest) =>
+      some (⟨norm != 0, t != 0, w.toNat, h.toNat, mkFonts sizes glyphs, mkPal pal, hbOf hbt, stack⟩, rest)
+    | none => none
+  | _ => none
+
+def doc (xs : List Int) : Option String :=
+  match parseDoc xs with
+  | some (d, []) =>
+      match d.fonts 0 with
       | none => some "panic"          -- get_font(0).unwrap() (render) — optimise itself needs no font 0
       | some f0 =>
-        let orig := renderDoc fonts palf f0.w f0.h (fun x y => getChar hb isTerm stack x y) W H
-        match optimizeDoc fonts (norm != 0) hb isTerm stack W H with
+        let orig := renderDoc d.fonts d.pal f0.w f0.h (fun x y => getChar d.hb d.isTerm d.stack x y) d.W d.H
+        match optimizeDoc d.fonts d.norm d.hb d.isTerm d.stack d.W d.H with
         | none => some ("panic|" ++ imageHash orig f0.h ++ " panic")
         | some cells =>
-          let opt := renderDoc fonts palf f0.w f0.h (fun x y => getChar hb isTerm [flatLayer W H cells] x y) W H
+          let opt := renderDoc d.fonts d.pal f0.w f0.h (fun x y => getChar d.hb d.isTerm [flatLayer d.W d.H cells] x y) d.W d.H
           some (showRows cells ++ "|" ++ imageHash orig f0.h ++ " " ++ imageHash opt f0.h)
-    | _ => none
   | _ => none
+
+/-- `<layer index> <px> <py> <w> <h> <a> <b> <len>`: a sixel on that layer, `picture_data[i] = (a·i + b) % 256` -/
+def sixelEntry (stack : List Layer) : P SixelImg
+  | li :: px :: py :: w :: h :: a :: b :: len :: xs =>
+    if li < 0 || w < 0 || h < 0 || a < 0 || b < 0 || len < 0 then none else
+    match stack[li.toNat]? with
+    | none => none
+    | some l =>
+      some (⟨l.offX, l.offY, px, py, w.toNat, h.toNat,
+             (List.range len.toNat).map fun i => (a.toNat * i + b.toNat) % 256⟩, xs)
+  | _ => none
+
+def fullHash : Option (List Nat) → String
+  | none => "panic"
+  | some bytes => toString (fnv bytes)
+
+/-- documents with sixels: the complete `render_to_rgba` (both loops) of the original, of the original without its
+    sixels, and of the optimised buffer, which has no sixels -/
+def sdoc (xs : List Int) : Option String :=
+  match parseDoc xs with
+  | some (d, rest) =>
+    match counted (sixelEntry d.stack) rest with
+    | some (sixels, []) =>
+      match d.fonts 0 with
+      | none => some "panic"
+      | some f0 =>
+        let cellAt := fun (x y : Int) => getChar d.hb d.isTerm d.stack x y
+        let full := renderFull d.fonts d.pal f0.w f0.h cellAt d.W d.H sixels
+        let text := renderFull d.fonts d.pal f0.w f0.h cellAt d.W d.H []
+        match optimizeDoc d.fonts d.norm d.hb d.isTerm d.stack d.W d.H with
+        | none => some ("panic|" ++ fullHash full ++ " " ++ fullHash text ++ " panic sixels=0")
+        | some cells =>
+          let opt := renderFull d.fonts d.pal f0.w f0.h (fun x y => getChar d.hb d.isTerm [flatLayer d.W d.H cells] x y) d.W d.H []
+          some (showRows cells ++ "|" ++ fullHash full ++ " " ++ fullHash text ++ " " ++ fullHash opt ++ " sixels=0")
+    | _ => none
+  | none => none
 
 def showSum (s : FontSum) : String :=
   toString s.w ++ " " ++ toString s.h ++ " " ++ toString s.lens.length ++ " " ++ toString (fnv s.lens) ++ " "
@@ -89,6 +138,9 @@ def showSum (s : FontSum) : String :=
 def handle : List String → String
   | "doc" :: rest => match ints rest with
     | some xs => (doc xs).getD "bad-op"
+    | none => "bad-op"
+  | "sdoc" :: rest => match ints rest with
+    | some xs => (sdoc xs).getD "bad-op"
     | none => "bad-op"
   | ["fontsum", "ansi", n] => match n.toNat? with
     | some n => match ansiFonts.lookup n with
